@@ -18,7 +18,7 @@ mapping handles = ([ ]);
 int hbcount = 0;
 
 string me() { return short_name(this_object()); }
-object ob_of(string n) { if (n == "me") return this_object(); return "/reg"->get(n); }
+object ob_of(string n) { if (n == "me") return this_object(); if (n[0] == '/') return find_object(n); return "/reg"->get(n); }
 
 string to_hex(string s) {
   string o = "";
@@ -28,6 +28,38 @@ string to_hex(string s) {
 }
 
 void do_ops(string ops, string ctx);
+
+string nm(object o) { return o ? short_name(o) : "0"; }
+
+// C08: logged move of o into d
+void wmove(object o, object d, string ctx) {
+  mixed err;
+  string on = nm(o), dn = nm(d);
+  vlog("\"e\":\"MoveTry\",\"ctx\":" + jq(ctx) + ",\"ob\":" + jq(on) + ",\"d\":" + jq(dn));
+  err = catch(o->mv_to(d));
+  if (err) vlog("\"e\":\"Raise\",\"ctx\":\"caught\",\"ob\":" + jq(on));
+  vlog("\"e\":\"MoveRes\",\"ob\":" + jq(on) + ",\"d\":" + jq(dn) + ",\"ok\":" + (err ? 0 : 1));
+}
+
+// C08: what LPC code can see of every registered object
+void wview() {
+  mapping all = "/reg"->all();
+  string *ks = keys(all);
+  string s = "";
+  object o, *inv;
+  int i, j;
+  string iv;
+  for (i = 0; i < sizeof(ks); i++) {
+    o = all[ks[i]];
+    if (s != "") s += ",";
+    if (!o) { s += "[" + jq(ks[i]) + ",0,\"0\",[],0]"; continue; }
+    inv = all_inventory(o);
+    iv = "";
+    for (j = 0; j < sizeof(inv); j++) { if (j) iv += ","; iv += jq(nm(inv[j])); }
+    s += "[" + jq(ks[i]) + ",1," + jq(nm(environment(o))) + ",[" + iv + "]," + (find_object(file_name(o)) == o ? 1 : 0) + "]";
+  }
+  vlog("\"e\":\"View\",\"l\":[" + s + "]");
+}
 
 // log uid / euid of every registered object
 void uid_snapshot() {
@@ -177,6 +209,36 @@ void do_op(string op, string ctx) {
     break;
   case "uids":
     uid_snapshot();
+    break;
+  case "wnew":    // wnew:NAME:FILE   logged clone (NAME = auto: a fresh name a1, a2, ...)
+    if (f[1] == "auto") f[1] = "/reg"->auto_name();
+    vlog("\"e\":\"CreateTry\",\"ctx\":" + jq(ctx) + ",\"by\":" + jq(me()) + ",\"name\":" + jq(f[1]) + ",\"file\":" + jq(f[2]));
+    if (f[1] == "auto") f[1] = "/reg"->auto_name();
+    "/reg"->push_pending(f[1]);
+    rest = catch(o = new(f[2]));
+    "/reg"->pop_pending();
+    if (rest) vlog("\"e\":\"Raise\",\"ctx\":\"caught\",\"ob\":" + jq(f[1]));
+    if (o) "/reg"->put(f[1], o);
+    vlog("\"e\":\"CreateRes\",\"name\":" + jq(f[1]) + ",\"ok\":" + (o ? 1 : 0) + ",\"fname\":" + jq(o ? file_name(o) : "0") + ",\"err\":" + (rest ? 1 : 0));
+    break;
+  case "wmv":     // wmv:O:D
+    if (ob_of(f[1]) && ob_of(f[2])) wmove(ob_of(f[1]), ob_of(f[2]), ctx);
+    else vlog("\"e\":\"MoveSkip\",\"ob\":" + jq(f[1]) + ",\"d\":" + jq(f[2]));
+    break;
+  case "wdest":   // wdest:O
+    o = ob_of(f[1]);
+    if (!o) { vlog("\"e\":\"DestSkip\",\"ob\":" + jq(f[1])); break; }
+    k = nm(o);
+    vlog("\"e\":\"DestTry\",\"ctx\":" + jq(ctx) + ",\"by\":" + jq(me()) + ",\"ob\":" + jq(k));
+    rest = catch(destruct(o));
+    if (rest) vlog("\"e\":\"Raise\",\"ctx\":\"caught\",\"ob\":" + jq(k));
+    vlog("\"e\":\"DestRes\",\"ob\":" + jq(k) + ",\"ok\":" + (rest ? 0 : 1));
+    break;
+  case "whook":   // whook:BASE:KIND:ops  (create hooks are per file)
+    "/reg"->set_hook(f[1], f[2], replace_string(implode(f[3..], ":"), "|", ";"));
+    break;
+  case "wview":
+    wview();
     break;
   case "clr":
     map_delete(scripts, f[1]);
